@@ -27,10 +27,16 @@ def tsan_reports(text):
     return out
 
 
-def run_one(mon, req, strings, threads, calls, yld, env, seed):
+def run_one(mon, req, strings, threads, calls, yld, env, seed, ref=None):
     d = tempfile.mkdtemp(prefix='xv-thr-')
     try:
         rq, st, rep = [os.path.join(d, x) for x in ('req', 'str', 'rep')]
+        extra = []
+        if ref is not None:     # cold start: reference computed by the executor in another process
+            rr, rm = os.path.join(d, 'ref'), os.path.join(d, 'refmsg')
+            ref.raw.tofile(rr)
+            open(rm, 'w').write(''.join(m + '\n' for m in ref.msgs))
+            extra = ['--ref', rr, rm]
         req.tofile(rq)
         with open(st, 'wb') as fh:
             for s in strings:
@@ -40,7 +46,7 @@ def run_one(mon, req, strings, threads, calls, yld, env, seed):
         e['TSAN_OPTIONS'] = 'halt_on_error=0:exitcode=66:second_deadlock_stack=1:history_size=4:log_path=' + os.path.join(d, 'tsan')
         e.update(env)
         try:
-            p = subprocess.run([mon, 'run', rq, st, rep, '--threads', str(threads), '--calls', str(calls), '--yield', str(yld)],
+            p = subprocess.run([mon, 'run', rq, st, rep] + extra + ['--threads', str(threads), '--calls', str(calls), '--yield', str(yld)],
                                env=e, stdout=subprocess.PIPE, stderr=subprocess.STDOUT, timeout=3600)
         except subprocess.TimeoutExpired:
             return dict(watchdog=True)
@@ -73,12 +79,16 @@ def main(tier):
             plan.append(('shipped' if i % 3 else 'kissel', 'tsan', 8 if i % 4 else 16, 12000, 10 + (i % 5) * 20, i % 2))
         for i in range(400):
             plan.append(('kissel' if i % 3 == 0 else 'shipped', 'plain', 8 if i % 2 else 16, 150000, (i % 4) * 15, (i + 1) % 2))
-    libs, mons, queries = {}, {}, {}
+    libs, mons, queries, refs = {}, {}, {}, {}
     for cfg in ('shipped', 'kissel'):
         libs[cfg] = execlib.Lib(cfg)
         Q, S = c16.build_queries(libs[cfg], rng, 6 if tier == 'quick' else 20)
         Q = Q[Q['fn'] < 2000]
+        # requests naming a crystal that does not exist cannot be expressed to the reference executor: drop them
+        bad = np.array([(r['fn'] >= 1001 and r['fn'] <= 1006 and r['s'] >= 0 and S[int(r['s'])] == 'nope') for r in Q])
+        Q = Q[~bad]
         queries[cfg] = (Q, S)
+        refs[cfg] = libs[cfg].run(Q, S)
         for fl in ('tsan', 'plain'):
             mons[(cfg, fl)] = build.harness(cfg, fl, 'thrmon')
     fnname = {f['id']: n for n, f in libs['shipped'].fns.items()}
@@ -88,7 +98,8 @@ def main(tier):
         i, (cfg, fl, th, calls, yld, loc) = job
         env = dict(LOCPATH=locdir, LC_ALL='xx_VERIF') if loc else dict(LC_ALL='C')
         Q, S = queries[cfg]
-        return job, run_one(mons[(cfg, fl)], Q, S, th, calls, yld, env, ck.seed * 1000 + i)
+        # every second run starts cold (first library calls of the process are concurrent; reference from another process)
+        return job, run_one(mons[(cfg, fl)], Q, S, th, calls, yld, env, ck.seed * 1000 + i, ref=refs[cfg] if i % 2 else None)
     # TSan runs are CPU heavy (8-16 threads each): a few at a time
     with ThreadPoolExecutor(3) as ex:
         results = list(ex.map(go, list(enumerate(plan))))
@@ -112,7 +123,7 @@ def main(tier):
             for fn in fns or ['?']:
                 ck.violation('c17:result-differs-from-serial:%s' % fn, '%d results in threads differ from the serial reference' % rep['mismatches'],
                              dict(where, examples=rep['bad'][:3]))
-        tot['runs'] += 1; tot['calls'] += rep['calls']; tot['events'] += rep['hook_events']; tot['yields'] += rep['yields']
+        tot['runs'] += 1; tot['cold'] = tot.get('cold', 0) + rep.get('cold', 0); tot['calls'] += rep['calls']; tot['events'] += rep['hook_events']; tot['yields'] += rep['yields']
         tot['failing'] += rep['failing_calls']; tot['errapi'] += rep['error_api_uses']
         for k in range(5):
             tot['overlap'][k] += rep['overlap'][k]; tot['enter'][k] += rep['enter'][k]
@@ -127,7 +138,7 @@ def main(tier):
                     'parser, catalogue lookups, crystal copies + structure factors, error copy/propagate on private slots), ThreadSanitizer build and plain build, '
                     'C and comma-decimal locale, seeded yields at the library hook points; every result compared bit for bit with a serial reference; '
                     'distinct = distinct overlap signatures (region entered x set of regions other threads were inside) observed through the hooks',
-               samples=samples, runs=tot['runs'], hook_events=tot['events'], injected_yields=tot['yields'],
+               samples=samples, runs=tot['runs'], cold_start_runs=tot.get('cold', 0), hook_events=tot['events'], injected_yields=tot['yields'],
                region_entries=dict(zip(REGION, tot['enter'])), entries_while_other_threads_inside=dict(zip(REGION, tot['overlap'])),
                overlap_signatures=tot['sigs'], failing_calls=tot['failing'], error_api_uses=tot['errapi'])
     return ck.finish(cov, ['TSan sees only instrumented code and intercepted libc calls', 'no thread mutates a shared crystal collection (documented exception)'])
